@@ -206,7 +206,7 @@ func (eval Evaluator) Add(op0 *rlwe.Ciphertext, op1 rlwe.Operand, opOut *rlwe.Ci
 		TBig := eval.parameters.RingT().ModulusAtLevel[0]
 
 		// Sets op1 to the scale of op0
-		op1.Mul(op1, new(big.Int).SetUint64(op0.Scale.Uint64()))
+		op1 = new(big.Int).Mul(op1, new(big.Int).SetUint64(op0.Scale.Uint64()))
 
 		op1.Mod(op1, TBig)
 
@@ -491,7 +491,7 @@ func (eval Evaluator) Mul(op0 *rlwe.Ciphertext, op1 rlwe.Operand, opOut *rlwe.Ci
 
 		TBig := eval.parameters.RingT().ModulusAtLevel[0]
 
-		op1.Mod(op1, TBig)
+		op1 = new(big.Int).Mod(op1, TBig)
 
 		// If op1 > T/2 then subtract T to minimize the noise
 		if op1.Cmp(new(big.Int).Rsh(TBig, 1)) == 1 {
@@ -1177,12 +1177,12 @@ func (eval Evaluator) MulThenAdd(op0 *rlwe.Ciphertext, op1 rlwe.Operand, opOut *
 		if op0.Scale.Cmp(opOut.Scale) != 0 {
 			ratio := ring.ModExp(op0.Scale.Uint64(), s.Modulus-2, s.Modulus)
 			ratio = ring.BRed(ratio, opOut.Scale.Uint64(), s.Modulus, s.BRedConstant)
-			op1.Mul(op1, new(big.Int).SetUint64(ratio))
+			op1 = new(big.Int).Mul(op1, new(big.Int).SetUint64(ratio))
 		}
 
 		TBig := eval.parameters.RingT().ModulusAtLevel[0]
 
-		op1.Mod(op1, TBig)
+		op1 = new(big.Int).Mod(op1, TBig)
 
 		// If op1 > T/2 then subtract T to minimize the noise
 		if op1.Cmp(new(big.Int).Rsh(TBig, 1)) == 1 {
